@@ -726,6 +726,30 @@ def celpy_literal(text: str):
     return None
 
 
+_LARK = None
+
+
+def celpy_tokens(text: str):
+    """the texts of the tokens real celpy's contextual lexer cuts `text` into while its LALR parser consumes them
+    (None if lexing or parsing fails)"""
+    global _LARK
+    if _LARK is None:
+        from celpy import celparser
+
+        celparser.CELParser()
+        _LARK = celparser.CELParser.CEL_PARSER
+    try:
+        ip = _LARK.parse_interactive(text)
+        out = []
+        for t in ip.lexer_state.lex(ip.parser_state):
+            out.append(str(t))
+            ip.feed_token(t)
+        ip.feed_eof()
+        return out
+    except Exception:
+        return None
+
+
 def model_literal(ans_s, ans_n):
     """the model's reading of a text, in the same shape as `celpy_literal`"""
     if isinstance(ans_s, str):
@@ -871,6 +895,8 @@ def run(tier: str) -> int:
     # ---- (b) exact-text differential, and the model's own round trip on the same values
     r = rng("c11-text")
     n_text = 20000 if quick else 1000000
+    tokq: list = []                      # emitted texts whose token stream is compared with real celpy's
+    tok_budget = 4000 if quick else 60000
     done = 0
     while done < n_text:
         vals = []
@@ -909,7 +935,41 @@ def run(tier: str) -> int:
                 ck.disagree({"v": to_wire(v)}, "token texts do not concatenate to the encoding", mine, "tokens-text")
             if ans["noExpr"] and ans["parsed"] != ans["want"]:
                 ck.disagree({"v": to_wire(v)}, ans["parsed"], ans["want"], "model-roundtrip (theorem value_roundtrip)")
+            if ans["noExpr"] and (not ans["tokenized"] or ans["chars"] != ans["want"]):
+                ck.disagree({"v": to_wire(v)}, ans["chars"], ans["want"], "model-chars-roundtrip (theorem chars_roundtrip)")
+            if ans["noExpr"] and isinstance(mine, str) and in_domain(v) and len(tokq) < tok_budget and (
+                    isinstance(v, (list, dict)) or len(tokq) % 3 == 0):
+                tokq.append(mine)
             ck.sample({"value": to_wire(v), "encode_cel": mine})
+
+    # ---- (c0) the modelled third-party part, whole texts: real celpy's token stream vs the model tokenizer
+    r2 = rng("c11-tok")
+    extra = ["[-5,-0.125,1e5,1E-5,-1.50e-3,007,-0]", "[true,false,null]", "{\"\":\"\",\"k\":[\"\",\"\"]}", "[[],{},[[]],[{}]]",
+             "[ 1 ,\t2 ,\n3 ]", "[1.,.5,1.e5,-.5]", "[truex]", "[nullable]", "[12e]", "[1e+]", "[-]", "[\"a\"\"b\"]", "[1 2]",
+             "[\"\"\"\"]", "[\"\"\"\"\"\"]", "[\"\"\"a\"\"\"\"]", "[12u]", "[0x1F]", "['a']", "[r\"a\"]", "[b\"a\"]", "[1-2]", "[1,-2]"]
+    for _ in range(200 if quick else 3000):
+        extra.append("[" + ",".join(gen_number_text(r2) if r2.random() < 0.5 else gen_literal_text(r2)
+                                    for _ in range(r2.choice([1, 2, 3]))) + "]")
+    texts_tok = tokq + extra
+    try:
+        atok = drv.ask([{"op": "tok", "t": t} for t in texts_tok])
+    except Infra as e:
+        atok = []
+        ck.notes.append(f"model driver unavailable: {e}")
+        ck.build_ok = False
+    for i, (t, ans) in enumerate(zip(texts_tok, atok)):
+        ck.evaluated()
+        real = celpy_tokens(t)
+        model = None if isinstance(ans["toks"], dict) else ans["toks"]
+        emitted = i < len(tokq)
+        ck.count("tokens:emitted-text" if emitted else f"tokens:hand-text-{'in' if model is not None else 'outside'}-sublanguage")
+        if emitted:
+            ck.nontriv("k:" + t)
+            if real != model or model is None:
+                ck.disagree({"text": t}, model, real, "celpy-token-stream (emitted text)")
+        elif model is not None and real != model:
+            # the model claims the text for the sub-language: real celpy must cut it the same way
+            ck.disagree({"text": t}, model, real, "celpy-token-stream (hand-built text)")
 
     # ---- (c) the modelled third-party part: celpy's literal lexer vs lexString / lexNumber
     r = rng("c11-lex")
